@@ -54,7 +54,7 @@ def cases(ctx):
             g, f = rng.uniform(0, 1, ng).astype(np.float32), rng.uniform(0, 1, nf).astype(np.float32)
         bad = None
         if rng.random() < 0.35:
-            bad = {"value": float(rng.choice([-0.01, 1.01, 2.0, -1e-12, one_up, -5e-324, -1.0, 1e9, 0.0, 1.0, 0.5])), "where": str(rng.choice(["g", "f"])),
+            bad = {"value": float(rng.choice([-0.01, 1.01, 2.0, -1e-12, one_up, -5e-324, -1.0, 1e9, 0.0, 1.0, 0.5, np.inf, -np.inf, np.inf, 1.7e308])), "where": str(rng.choice(["g", "f"])),
                    "with_nan": bool(rng.random() < 0.35), "front": bool(rng.random() < 0.5)}
         ep, en = gen.easy(rng)
         yield {"g": g, "f": f, "ep": ep, "en": en, "scl": str(rng.choice(["genuine", "fraud"])), "kind": kind, "bad": bad,
